@@ -691,10 +691,21 @@ func init() {
 		c.Arm = "crash"
 		c.Cfg = genConfig(rng, rng.Chance(0.6))
 		crashBudget(c, rng, tier, true)
-		s := newSwarm(rng, []string{"put", "del", "sync", "restart", "get"}, 25)
+		// "for all workloads": a share of the runs also merges (power loss inside Merge and inside the adopting
+		// Open is reached only here - C07 covers process crashes there); batches stay with C04
+		kinds := []string{"put", "del", "sync", "restart", "get"}
+		withMerge := rng.Chance(0.3)
+		if withMerge {
+			kinds = append(kinds, "merge")
+		}
+		s := newSwarm(rng, kinds, 25)
 		s.W["put"] += 6
 		s.W["del"] += 1
 		if s.W["restart"] > 2 {
+			s.W["restart"] = 2
+		}
+		if withMerge {
+			s.W["merge"] = rng.Range(1, 2)
 			s.W["restart"] = 2
 		}
 		s.ValW[5] = min(s.ValW[5], 1)
